@@ -678,6 +678,14 @@ def run(rep: Report, ctx: Any) -> str:
                        "again by the narrowed property - an inherited default is not kept as converted for the wider one (shared with C13 R13.9)")
     rep.floor("copies_that_replace_default_determinants", determinants.check(rep, ctx, "R15.10"), 1)
     determinants.control(rep, "R15.10")
+    from . import registries
+
+    rep.rule("R15.11", "the class that is generated for a narrowed enum is the one the merge chose: the merged property names its class "
+                       "(class_info, taken from the same declaration as the values) and the class is generated from what is registered under "
+                       "that name, so under one class name only one list of values is ever registered - a second declaration under the "
+                       "name of a registered enum with other values (two members of one allOf that declare the same inline enum property "
+                       "differently) is a diagnostic, not a silent replacement (shared with C07 R07.4 / C09 R09.3)")
+    rep.floor("enum_registrations_judged", registries.check_enum_name_identifies_values(rep, ctx, "R15.11"), 2)
     return LEVEL
 
 
@@ -1097,6 +1105,7 @@ def _enum_sibling(rep: Report, ctx: Any, mf: MergeFn, kind: str) -> None:
               lhs=sorted(direction), rhs="a <= b and b <= a")
     others = {p: [k for k, (q, ts) in mf.atoms.items() if q == p and ts != {kind}] for p in mf.params}
     wrong, n_narrow, silent, n_incompat, unchecked, n_single = [], 0, [], 0, [], 0
+    split: list[str] = []
     for env, r in mf.runs:
         if not _feasible(mf, env):
             continue
@@ -1116,6 +1125,12 @@ def _enum_sibling(rep: Report, ctx: Any, mf: MergeFn, kind: str) -> None:
                     n_narrow += 1
                     if not any({small} == src for small, _ in true_sub):
                         wrong.append(f"values={text} when {[k for k, v in st.assume.items() if v and k in direction]}")
+                # ... and the class the result names (the class that is generated for it) is the class of the declaration the values are
+                # taken from: given with them, or both left as the copied argument has them
+                named = [names_in(kw.value) & set(mf.params) for c in calls_in(e) for kw in c.keywords if kw.arg == "class_info"] or ([{base}] if base else [])
+                for src_c in named:
+                    if any(src_c != src for _, src in sources):
+                        split.append(f"class_info of {sorted(src_c)}, values of {sorted(sources[0][1])} when {[k for k, v in st.assume.items() if v and k in direction]}")
             if both and set(direction) <= set(st.assume) and not true_sub:
                 n_incompat += 1
                 if _descr(e, mf.params) != "<error>":
@@ -1136,6 +1151,9 @@ def _enum_sibling(rep: Report, ctx: Any, mf: MergeFn, kind: str) -> None:
     rep.require(n_incompat and n_single, f"paths of {name} for incompatible / single-enum arguments")
     rep.check(not wrong, "R15.1", f"{name}::smaller-enum-wins", "of two enums the result does not take the values of the one that is a subset of the "
               "other", where(mf.f, mf.f.node), lhs=sorted(set(wrong))[:3], rhs="values of the subset side")
+    rep.check(not split, "R15.1", f"{name}::class-follows-values", "the result of merging two enums has the values of one declaration and names the "
+              "class of the other: the attribute of the composed model is typed with a class that has other values than the merge chose",
+              where(mf.f, mf.f.node), lhs=sorted(set(split))[:3], rhs="class_info and values from the same argument")
     rep.check(not silent, "R15.1", f"{name}::incompatible-is-error", "two enums of which neither is a subset of the other, or an enum and a non-base "
               "type, are merged without a diagnostic", where(mf.f, mf.f.node), lhs=sorted(set(silent))[:3], rhs="PropertyError")
     rep.check(not unchecked, "R15.1", f"{name}::base-type-checked", "an enum is merged with an int / string property without looking at the enum's value "
